@@ -19,7 +19,7 @@ func init() {
 			"C03.keyhash — in every cacheKey method of an expression type with operands, the operands' keys flow only through order-preserving encoders (append, binary Put/AppendUint64, helper parameters) into a recognised hash (xxhash), never through arithmetic/bitwise operators or math/bits, the method returns that hash, and a per-type constant tag reaches the same hash input with tags pairwise distinct; " +
 			"C03.keyoperands — the list of keys an n-ary operator hashes is exactly one cacheKey() per operand in operand order (no operand skipped, replaced or expanded into its own operands; the collecting loop may live in a helper, also a generic map helper mapSlice(xs, f) whose function argument — method expression, literal or named wrapper — is resolved and must return x.cacheKey() of its parameter; a re-sliced operand list is not the operand list); " +
 			"C03.keypair — each eval looks up and stores under its own cacheKey(), stores exactly the bitmap it returns, and returns the cached bitmap itself on a hit; " +
-			"C03.pure — in everything reachable from Execute/GetSchema every call of a mutating roaring.Bitmap method has a receiver created in that function and not yet handed to Cache.Put, and every roaring package function called is in the reviewed non-mutating table; " +
+			"C03.pure — in everything reachable from Execute/GetSchema every call of a mutating roaring.Bitmap method (called directly, or through a function value read from a struct field into which the module stores the method expression — an operator table's `accumulate: (*roaring.Bitmap).And`) has a receiver created in that function and not yet handed to Cache.Put, and every roaring package function called is in the reviewed non-mutating table; " +
 			"C03.storeimm — fields of Index and of the column getters are written only by the open/option/close functions; " +
 			"C03.cacheowner — every cache installed with WithCache in non-test code is created in the installing function for that one index (cache keys do not identify the index, so a shared cache would mix results of different files). " +
 			"NOT decided: equality of results with an uncached index as such (follows from the above plus determinism of roaring, trusted); 64-bit hash collisions (assumed away by the property); LRU behaviour (C07).",
@@ -419,7 +419,9 @@ func childKeyCalls(c *Ctx, fn *ssa.Function) []*ssa.Call {
 			out = append(out, call)
 			return
 		}
-		if f := calleeFunc(cc); f != nil && f.Name() == keyName && f.Signature.Recv() != nil && c.w.inModule(f) {
+		// (a static call of an expression node's method; a method of the same name on another type — an operator table
+		// `opAnd.cacheKey(e.Exprs)` that derives the key for the node — is a helper the keys travel through, not an operand)
+		if f := calleeFunc(cc); f != nil && f.Name() == keyName && f.Signature.Recv() != nil && c.w.inModule(f) && isExprMethod(c, f) {
 			out = append(out, call)
 		}
 	})
@@ -542,6 +544,20 @@ func c03Keyhash(c *Ctx) {
 			tt.run(fn)
 			if tt.sinkHits > 0 {
 				reached = append(reached, k.Value.ExactString())
+			}
+		}
+		// the tag may also be a constant of the operator table the method delegates to (`opAnd.cacheKey(e.Exprs)` with
+		// opAnd = naryOp{tag: maskAnd, …}, a package-level variable only its initialiser writes): it counts if the field's
+		// value, read in the table's method, reaches the hash input
+		for _, tg := range tableTags(c, fn) {
+			tt := newTaint(c, false)
+			for _, v := range tg.loads {
+				tt.tainted[v] = true
+			}
+			tt.funcs[tg.in] = true
+			tt.run(fn)
+			if tt.sinkHits > 0 {
+				reached = append(reached, tg.k.Value.ExactString())
 			}
 		}
 		sort.Strings(reached)
@@ -711,6 +727,39 @@ func c03Pure(c *Ctx) {
 				}
 			}
 		}
+		// an in-place operation called through a function value that is kept in a struct field (an operator table
+		// `naryOp{accumulate: (*roaring.Bitmap).And}`, called as op.accumulate(acc, x)): if one of the functions the module
+		// stores in that field is a mutating bitmap method, the call writes to the bitmap it is given as receiver. (Function
+		// values that do not come from a field, or fields some store of which does not resolve to a function, are not
+		// followed: the rule stays silent on them, as it always was on calls of function values.)
+		allInstrs(fn, func(i ssa.Instruction) {
+			cc := callCommon(i)
+			if cc == nil || cc.IsInvoke() || calleeFunc(cc) != nil || len(cc.Args) == 0 {
+				return
+			}
+			targets, known := fieldFuncTargets(c, cc.Value)
+			if !known {
+				return
+			}
+			for _, g := range targets {
+				m, isBM := bitmapMethodOfThunk(g)
+				if !isBM || roaringReadOnly[m] {
+					continue
+				}
+				nCalls++
+				key := fmt.Sprintf("%s: roaring.Bitmap.%s", safeFname(fn), m)
+				if !roaringMutators[m] {
+					bad++
+					c.r.undecided(rule, key, "method of roaring.Bitmap that is in neither the mutating nor the read-only table (called through a function value)", c.w.ipos(i))
+					continue
+				}
+				if !fr.freshBasedRef(cc.Args[0]) {
+					bad++
+					c.r.bad(rule, key, "mutating bitmap method, called through the function value of an operator table, on a bitmap that was not created here (it may be a stored, preloaded or cached bitmap, or an operand's result: an operator's result has just been put into — or was served from — the result cache under the operand's key)",
+						[]string{c.w.ipos(i)}, re.chain(fn)...)
+				}
+			}
+		})
 		// roaring package-level functions must be in the reviewed table
 		allInstrs(fn, func(i ssa.Instruction) {
 			cc := callCommon(i)
